@@ -344,6 +344,16 @@ func (ci *ChunkInfo) DelFile(rootCid boson.Address, del func() error) error {
 		return err
 	}
 	h := *hashs
+	// The reference counts decide which chunks del may remove and are decremented
+	// below: they must include this file. A root the pyramid table does not know
+	// (stored by an upload that never reported to chunkinfo, or forgotten over a
+	// restart) is registered first; otherwise its chunks would be told apart from
+	// those of the registered files sharing them by counts that ignore it.
+	if !ci.isExists(rootCid) {
+		if err := ci.chunkPutChanUpdate(ctx, ci.cp, ci.initChunkPyramid, ctx, rootCid).err; err != nil {
+			return err
+		}
+	}
 	if err := del(); err != nil {
 		return err
 	}
